@@ -414,6 +414,9 @@ theorem bezout_mod_coprime (t : Nat) {n : Nat} (c d : RU n) (hc : WF c) (hd : WF
   rw [hcop] at h
   exact ⟨h.2.2.2.2.1, h.2.2.2.2.2⟩
 
+example : ∃ (c d : RU 1), WF c ∧ WF d ∧ val c ≠ 0 ∧ val d ≠ 0 ∧ Nat.gcd (val c) (val d) = 1 :=
+  ⟨ofLimb 1 1, ones 1, by simp [ofLimb, zero, WF, B64], by simp [ones, WF, B64], by decide, by decide, by decide⟩
+
 example : ∃ (b c : RU 1), WF b ∧ WF c ∧ val c ≠ 0 ∧ Nat.gcd (val b) (val c) = 1 ∧ val c % 2 = 1 :=
   ⟨zero 1, ofLimb 1 1, by simp [zero, WF, B64], by simp [ofLimb, zero, WF, B64], by simp [ofLimb, zero, val],
    by simp [ofLimb, zero, val], by simp [ofLimb, zero, val]⟩
